@@ -498,6 +498,24 @@ class Fixtures:
             con.close()
         self._n = 0
 
+    def same_name_kernels(self):
+        """three user kernels that share a FILE NAME with another kernel but live in other directories and hold other content:
+        two 'kernel.csv' (different pore-size grids) and a cut-down copy named like the shipped kernel"""
+        import pandas
+        import pygaps.characterisation.psd_kernel as pk
+        src = pk.KERNELS["DFT-N2-77K-carbon-slit"]
+        out = {}
+        k = None
+        for tag, fname, cols in (("a", "kernel.csv", slice(1, None, 9)), ("b", "kernel.csv", slice(5, None, 9)), ("shipped-name", os.path.basename(src), slice(2, None, 8))):
+            d = os.path.join(self.scratch, "kernels_" + tag)
+            path = os.path.join(d, fname)
+            if not os.path.exists(path):
+                os.makedirs(d, exist_ok=True)
+                k = pandas.read_csv(src, index_col=0) if k is None else k
+                k[list(k.columns[cols])].to_csv(path)
+            out[tag] = path
+        return out
+
     def bad_kernel(self):
         """a user kernel file with one non-numeric cell (a spreadsheet '#VALUE!') in a column other than the first"""
         path = os.path.join(self.scratch, "kernel_bad.csv")
@@ -1078,6 +1096,84 @@ def cases(fx, tier, seed):
             add(cls + site, f"{tag}: {variant}", b, lambda o, f=f: f(o["isotherm"]), cache=False)
     add("Material.density", "bare Material object", lambda: {"material": pygaps.Material("purity_bare_object")},
         lambda o: [o["material"].density, o["material"].molar_mass, outcome_of(lambda: o["material"].get_prop("density"))["text"]], cache=False)
+
+    # ---- kernels that share a file name but not a path: the loaded-kernel cache must tell them apart, in either order
+    sk = fx.same_name_kernels
+    add("psd_dft", "tak:user kernel dirA/kernel.csv, after dirB/kernel.csv was loaded", one("tak", 14), lambda o: pgc.psd_dft(o["isotherm"], kernel=sk()["a"]),
+        cross=lambda o: pk._load_kernel(sk()["b"]))
+    add("psd_dft", "tak:user kernel dirB/kernel.csv, after dirA/kernel.csv was loaded", one("tak", 14), lambda o: pgc.psd_dft(o["isotherm"], kernel=sk()["b"]),
+        cross=lambda o: pk._load_kernel(sk()["a"]))
+    add("psd_dft", "tak:user's cut-down copy named like the shipped kernel, after the shipped one was loaded", one("tak", 14),
+        lambda o: pgc.psd_dft(o["isotherm"], kernel=sk()["shipped-name"]), cross=lambda o: pk._load_kernel(pk.KERNELS["DFT-N2-77K-carbon-slit"]))
+    if thorough:
+        add("psd_dft", "tak:shipped kernel, after the user's copy of the same name was loaded", one("tak", 14),
+            lambda o: pgc.psd_dft(o["isotherm"], kernel="DFT-N2-77K-carbon-slit"), cross=lambda o: pk._load_kernel(sk()["shipped-name"]))
+
+    # ---- consumers of to_dict(): cloning idioms are read-only uses of the original.  Each call returns the clone AND what the original
+    #      answers afterwards, so that 'fresh' compares subsequent results with those of a fresh equal object
+    def model_summary(m):
+        return {"name": m.name, "params": dict(m.params), "rmse": m.rmse, "prange": list(m.pressure_range), "lrange": list(m.loading_range)}
+
+    def after(i):
+        return [i.to_dict(), i.to_json(), i.loading_at(0.3)]
+
+    def clone_model_iso(i):
+        return pygaps.ModelIsotherm(model=pgm.model_from_dict(i.model.to_dict()), **i.to_dict())
+
+    def clone_point(i):
+        return pygaps.PointIsotherm(isotherm_data=i.data_raw, pressure_key=i.pressure_key, loading_key=i.loading_key, **i.to_dict())
+
+    def converted(c):
+        """permanent conversions of the CLONE (aliasing through the constructor would move the original)"""
+        if hasattr(c, "data_raw"):
+            c.convert_pressure(mode_to="absolute", unit_to="kPa")
+            c.convert_loading(basis_to="molar", unit_to="mol")
+            c.convert_material(basis_to="mass", unit_to="kg")
+            c.data_raw[c.loading_key] = c.data_raw[c.loading_key] * 2.0
+            c.properties["operator"] = "somebody else"
+            c.properties["added"] = 1
+        else:
+            c.model.params[next(iter(c.model.params))] = 123.0
+            c.properties["added"] = 1
+        c.convert_temperature("°C" if c.temperature_unit == "K" else "K")
+        return c                # (the Material object is shared through the registry by design: not touched)
+
+    def deep(i):
+        try:
+            c = copy.deepcopy(i)
+        except Exception:        # a CoolProp state object cannot be copied: not pyGAPS's contract, only the original is watched
+            return None
+        converted(c)
+        return None
+    m_fix = [("Langmuir(ch4)", lambda: {"isotherm": fx.model("ch4", "Langmuir")}), ("Toth(syn)", lambda: {"isotherm": fx.model("syn", "Toth")}),
+             ("Langmuir(rep degC)", lambda: {"isotherm": fx.model("rep:degC", "Langmuir")})]
+    if thorough:
+        m_fix += [("DSLangmuir(syn)", lambda: {"isotherm": fx.model("syn", "DSLangmuir")}), ("BET(sio)", lambda: {"isotherm": fx.model("sio", "BET")})]
+    for tag, b in m_fix:
+        add("model_from_dict(model.to_dict())", tag, b, lambda o: [model_summary(pgm.model_from_dict(o["isotherm"].model.to_dict())), after(o["isotherm"])], cache=False)
+        add("ModelIsotherm(model_from_dict, **to_dict())", tag, b, lambda o: [clone_model_iso(o["isotherm"]), after(o["isotherm"])], cache=False)
+        add("ModelIsotherm(model_from_dict, **to_dict())", tag + ", clone then modified", b, lambda o: [converted(clone_model_iso(o["isotherm"])), after(o["isotherm"])], cache=False)
+        add("PointIsotherm.from_modelisotherm", tag + ", clone then converted", b, lambda o: [converted(pygaps.PointIsotherm.from_modelisotherm(o["isotherm"])), after(o["isotherm"])], cache=False)
+        add("ModelIsotherm.from_isotherm", tag + " as template", b,
+            lambda o: [pygaps.ModelIsotherm.from_isotherm(o["isotherm"], pressure=[0.1, 0.2, 0.4, 0.8], loading=[1.0, 1.7, 2.6, 3.4], model="Langmuir"), after(o["isotherm"])], cache=False)
+        add("PointIsotherm.from_isotherm", tag + " as template", b,
+            lambda o: [converted(pygaps.PointIsotherm.from_isotherm(o["isotherm"], pressure=[0.1, 0.2, 0.4, 0.8], loading=[1.0, 1.7, 2.6, 3.4])), after(o["isotherm"])], cache=False)
+        add("copy.deepcopy", tag + ", copy then modified", b, lambda o: [deep(o["isotherm"]), after(o["isotherm"])], cache=False)
+        add("isotherm_to_json/csv/xl/db (model)", tag + ", all exports in a row", b,
+            lambda o: [o["isotherm"].to_json(), o["isotherm"].to_csv(), o["isotherm"].to_aif(), to_file("to_xl", "xls", read_xls)(o), o["isotherm"].model.to_dict(), after(o["isotherm"])], cache=False)
+    p_fix = [("syn", one("syn")), ("rep relative,mass/volume,degC", lambda: {"isotherm": fx.rep("relative,mass/volume,degC")}), ("mcm", one("mcm"))]
+    if thorough:
+        p_fix += [("rep " + r, (lambda r=r: {"isotherm": fx.rep(r)})) for r in reps if r != "relative,mass/volume,degC"] + [("hkust", one("hkust"))]
+    for tag, b in p_fix:
+        add("PointIsotherm(data_raw, **to_dict())", tag, b, lambda o: [clone_point(o["isotherm"]), after(o["isotherm"])], cache=False)
+        add("PointIsotherm(data_raw, **to_dict())", tag + ", clone then converted", b, lambda o: [converted(clone_point(o["isotherm"])), after(o["isotherm"])], cache=False)
+        add("PointIsotherm.from_isotherm", tag + " as template, clone then converted", b,
+            lambda o: [converted(pygaps.PointIsotherm.from_isotherm(o["isotherm"], isotherm_data=o["isotherm"].data_raw, pressure_key=o["isotherm"].pressure_key,
+                                                                     loading_key=o["isotherm"].loading_key)), after(o["isotherm"])], cache=False)
+        add("ModelIsotherm.from_isotherm", tag + " as template", b,
+            lambda o: [pygaps.ModelIsotherm.from_isotherm(o["isotherm"], isotherm_data=o["isotherm"].data_raw, pressure_key=o["isotherm"].pressure_key,
+                                                           loading_key=o["isotherm"].loading_key, model="Langmuir"), after(o["isotherm"])], cache=False)
+        add("copy.deepcopy", tag + ", copy then converted", b, lambda o: [deep(o["isotherm"]), after(o["isotherm"])], cache=False)
 
     # ---- adsorbate / material objects passed directly
     add("Adsorbate.to_dict", "nitrogen", lambda: {"adsorbate": pygaps.Adsorbate.find("nitrogen")}, lambda o: o["adsorbate"].to_dict(), cache=False)
